@@ -1,6 +1,9 @@
 //! One monitor module per property.
 
 pub mod c09;
+pub mod certs;
+pub mod crls;
+pub mod csrs;
 pub mod c13;
 pub mod c20;
 
@@ -30,9 +33,191 @@ pub fn dispatch(ctx: &Ctx, _extra: &[String]) -> (String, String) {
 				"all histories up to the stated length over 12 operations".into(),
 			)
 		},
+		#[cfg(all(feature = "crypto", feature = "ossl"))]
+		"C01" | "C02" | "C04" | "C05" | "C07" | "C08" => artefacts(ctx),
 		other => {
 			ctx.inconclusive(&format!("no monitor for {} in this build", other));
 			(String::new(), String::new())
 		},
+	}
+}
+
+#[cfg(all(feature = "crypto", feature = "ossl"))]
+fn artefacts(ctx: &Ctx) -> (String, String) {
+	use crate::keys::{build_pool, PoolSize};
+	use certs::Prop;
+	let pool = build_pool(if ctx.quick() { PoolSize::Quick } else { PoolSize::Thorough });
+	ctx.note(format!("key pool: {}", pool.iter().map(|k| k.label.clone()).collect::<Vec<_>>().join(",")));
+	let prop = match ctx.prop.as_str() {
+		"C01" => Prop::C01,
+		"C02" => Prop::C02,
+		"C04" => Prop::C04,
+		"C05" => Prop::C05,
+		"C07" => Prop::C07,
+		_ => Prop::C08,
+	};
+	let wants = |kind: &str| -> bool {
+		match ctx.replay.as_ref() {
+			None => true,
+			Some(r) => match kind {
+				"csr" => r.workload.starts_with("csr-"),
+				"crl" => r.workload.starts_with("crl-"),
+				_ => !r.workload.starts_with("csr-") && !r.workload.starts_with("crl-"),
+			},
+		}
+	};
+	if matches!(prop, Prop::C01 | Prop::C02 | Prop::C04 | Prop::C05) && wants("cert") {
+		let issuers = certs::make_issuers(&pool, ctx.seed);
+		let w = certs::Workload { pool: &pool, issuers: &issuers };
+		let n = match prop {
+			Prop::C02 => ctx.scale(5_000, 300_000),
+			Prop::C05 => ctx.scale(3_000, 100_000),
+			_ => ctx.scale(3_000, 150_000),
+		};
+		certs::run(ctx, prop, &w, n);
+		if prop == Prop::C05 {
+			c05_serials(ctx, &pool);
+		}
+	}
+	if matches!(prop, Prop::C01 | Prop::C04 | Prop::C05 | Prop::C07) && wants("csr") {
+		csrs::run(ctx, prop, &pool, if prop == Prop::C07 { ctx.scale(4_000, 150_000) } else { ctx.scale(1_500, 60_000) });
+	}
+	if matches!(prop, Prop::C01 | Prop::C04 | Prop::C05 | Prop::C08) && wants("crl") {
+		crls::run(ctx, prop, &pool, if prop == Prop::C08 { ctx.scale(2_500, 100_000) } else { ctx.scale(1_000, 40_000) });
+	}
+	if prop == Prop::C01 && ctx.replay.is_none() {
+		c01_faults(ctx);
+	}
+	(
+		"case = one generated parameter set (ParamSpec / CsrSpec / CrlSpec) x key x issuer x public-key source, built into a real artefact; enumerated workloads (extension-presence lattice, 512 key-usage subsets, prefix lengths, path lengths, key-id method grid, refusal lattice, entry lattice, ...) are distinct by construction, random cases are counted by hash of the expanded case and only when at least one non-default field is exercised".into(),
+		"extension-presence lattice 128x3, 512 key-usage subsets, 2x256 prefix lengths x 4 constructors, 256 path lengths, 31x4 refusal lattice, 22x2 CRL entry lattice, 512 issuer key-usage sets: enumerated on every run".into(),
+	)
+}
+
+/// C05: automatic serial numbers over many fresh subject keys
+#[cfg(all(feature = "crypto", feature = "ossl"))]
+fn c05_serials(ctx: &Ctx, _pool: &[crate::keys::PoolKey]) {
+	use crate::ctx::{par_for, CaseId};
+	let n = ctx.scale(3_000, 60_000);
+	par_for(n, ctx.threads, |i| {
+		let case = CaseId::new("auto-serial", ctx.seed, i);
+		let alg = if i % 2 == 0 { &rcgen::PKCS_ED25519 } else { &rcgen::PKCS_ECDSA_P256_SHA256 };
+		let kp = rcgen::KeyPair::generate_for(alg).expect("keygen");
+		let p = rcgen::CertificateParams::default();
+		match crate::guard(|| p.self_signed(&kp)) {
+			Ok(Ok(c)) => match crate::x509::parse_certificate(c.der()) {
+				Ok(v) => {
+					let s = &v.serial;
+					ctx.count("eval:auto_serial_keys");
+					ctx.count(&format!("auto_serial_content_len_{}", s.len()));
+					// which raw hash prefix did we see? first content octet classes, for the evidence
+					ctx.count(if s[0] == 0 { "auto_serial_leading_zero_octet" } else if s[0] < 0x10 { "auto_serial_small_first_octet" } else { "auto_serial_other" });
+					if s.len() > 20 || s[0] & 0x80 != 0 || s.iter().all(|b| *b == 0) {
+						ctx.violation(
+							"c05:auto-serial",
+							&case,
+							&format!("key={}", crate::util::hex(&kp.serialize_der())),
+							&format!("automatic serial {} is not a positive non-zero integer of at most 20 octets", crate::util::hex(s)),
+						);
+					}
+					// the property says the serial is derived from the key: observe the hash's first byte classes
+					let h = crate::ossl::sha256(kp.public_key_raw());
+					ctx.count(&format!("auto_serial_hash_top_bit_{}", h[0] >> 7));
+					if h[0] == 0x80 || h[0] == 0x00 || h[0] == 0xff || h[0] == 0x7f {
+						ctx.count("auto_serial_hash_first_byte_boundary");
+					}
+				},
+				Err(e) => ctx.violation("c05:undecodable", &case, "default params", &e),
+			},
+			Ok(Err(e)) => ctx.violation("c05:cert-refused", &case, "default params", &e.to_string()),
+			Err(p) => ctx.violation("c05:cert-panic", &case, "default params", &p),
+		}
+	});
+}
+
+/// C01: a failing remote signer must yield an error and no artefact
+#[cfg(all(feature = "crypto", feature = "ossl"))]
+fn c01_faults(ctx: &Ctx) {
+	use crate::ctx::CaseId;
+	use crate::keys::{remote, Fault};
+	use crate::ossl::{self, SigAlg};
+	let mut idx = 0u64;
+	let mut specs: Vec<(SigAlg, Vec<u8>)> = vec![
+		(SigAlg::EcdsaSha256, ossl::ec_pkcs8(openssl::nid::Nid::X9_62_PRIME256V1)),
+		(SigAlg::EcdsaSha384, ossl::ec_pkcs8(openssl::nid::Nid::SECP384R1)),
+		(SigAlg::Ed25519, ossl::ed25519_pkcs8()),
+		(SigAlg::RsaSha256, ossl::rsa_pkcs8(2048)),
+	];
+	if cfg!(feature = "aws") {
+		specs.push((SigAlg::EcdsaSha512, ossl::ec_pkcs8(openssl::nid::Nid::SECP521R1)));
+	}
+	for (sig, der) in specs {
+		// a healthy remote key to make the issuer certificate with
+		let good = remote("good", der.clone(), sig, Fault::None);
+		let mut p = crate::spec::ParamSpec::minimal();
+		p.is_ca = crate::spec::IsCaSpec::Ca(None);
+		let issuer = p.to_rcgen(None).self_signed(&good.kp).expect("issuer");
+		for fail_at in 0..3usize {
+			for kind in ["self_signed", "signed_by", "csr", "crl", "csr_signed_by"] {
+				idx += 1;
+				if kind == "csr_signed_by" && sig == SigAlg::EcdsaSha512 {
+					// P-521 requests cannot be parsed back (known finding of C07)
+					continue;
+				}
+				let case = CaseId::new("fault", ctx.seed, idx);
+				let bad = remote("faulty", der.clone(), sig, Fault::FailAt(fail_at));
+				let text = format!("{:?} {} fail_at_call={}", sig, kind, fail_at);
+				let spec = crate::spec::ParamSpec::minimal();
+				let r: Result<Result<usize, String>, String> = crate::guard(|| match kind {
+					"self_signed" => spec.to_rcgen(None).self_signed(&bad.kp).map(|c| c.der().len()).map_err(|e| e.to_string()),
+					"signed_by" => spec.to_rcgen(None).signed_by(&good.kp, &issuer, &bad.kp).map(|c| c.der().len()).map_err(|e| e.to_string()),
+					"csr" => spec.to_rcgen(None).serialize_request(&bad.kp).map(|c| c.der().len()).map_err(|e| e.to_string()),
+					"csr_signed_by" => {
+						let csr = spec.to_rcgen(None).serialize_request(&good.kp).map_err(|e| e.to_string())?;
+						let parsed = rcgen::CertificateSigningRequestParams::from_der(csr.der()).map_err(|e| format!("parse: {}", e))?;
+						parsed.signed_by(&issuer, &bad.kp).map(|c| c.der().len()).map_err(|e| e.to_string())
+					},
+					_ => rcgen::CertificateRevocationListParams {
+						this_update: rcgen::date_time_ymd(2024, 1, 1),
+						next_update: rcgen::date_time_ymd(2024, 2, 1),
+						crl_number: rcgen::SerialNumber::from_slice(&[1]),
+						issuing_distribution_point: None,
+						revoked_certs: vec![],
+						key_identifier_method: rcgen::KeyIdMethod::Sha256,
+					}
+					.signed_by(&issuer, &bad.kp)
+					.map(|c| c.der().len())
+					.map_err(|e| e.to_string()),
+				});
+				let calls = bad.remote_log.as_ref().unwrap().lock().unwrap().msgs.len();
+				ctx.count("eval:fault_injections");
+				ctx.count(&format!("dist:fault:{}:{}", kind, fail_at));
+				match r {
+					Err(pn) => ctx.violation("c01:fault-panic", &case, &text, &pn),
+					Ok(Ok(n)) => {
+						// exactly one sign call is made per artefact, so only fail_at == 0 can fire
+						if calls > fail_at {
+							ctx.violation(
+								"c01:signer-failure-swallowed",
+								&case,
+								&text,
+								&format!("the signer failed at call {} ({} calls made) but an artefact of {} bytes was returned", fail_at, calls, n),
+							);
+						} else {
+							ctx.count("eval:fault_not_reached");
+						}
+					},
+					Ok(Err(_)) => {
+						if calls <= fail_at {
+							ctx.violation("c01:unexpected-error", &case, &text, "the call failed although the injected fault was never reached");
+						}
+						ctx.count("eval:fault_propagated");
+					},
+				}
+				if calls > 1 {
+					ctx.violation("c01:multiple-sign-calls", &case, &text, &format!("{} sign calls for one artefact", calls));
+				}
+			}
+		}
 	}
 }
